@@ -20,7 +20,8 @@ Huge == [i \in 1..4400 |-> 57]      \* longer than CPython's default limit for i
 \* invalid / gray classes: one past the range, negative, huge, alphabetic, empty, float form, padded, signed, leading zero
 Bad == { <<50,53,54>>, <<45,49>>, <<57,57,57,57,57,57,57,57,57,57,57>>, <<97>>, <<>>, <<49,46,48>>,
          <<32,49>>, <<43,49>>, <<48,48,55>>, <<49,101,51>>, <<49,95,49>>, <<53>>, <<50>>, <<45,48>>,
-         <<178>>, <<1635>>, Huge }       \* superscript two, an Arabic-Indic digit, a 4400-digit number
+         <<178>>, <<1635>>, Huge,
+         <<32,50,53,53>>, <<43,50,53,53>>, <<48,50,53,53>>, <<50,53,53,32>> }   \* padded / signed / zero-led spellings of 255       \* superscript two, an Arabic-Indic digit, a 4400-digit number
 BadType == { <<97>>, <<>>, <<49,46,48>>, <<49,101,51>>, <<48,53>>, <<32,51>>, <<45>>, <<178>>, Huge }
 
 Five == (VNode \X VChild \X VCmd \X VAck \X VType)
